@@ -41,6 +41,11 @@ def case(stream, other, e, a):
     return ["c03.assert", [stream, list(other)], enc_res(e), enc_res(a)]
 
 
+def rundef_case(ref, stream, other, e):
+    """the definition that reaches assert through the real runTestCasesForServer, read back by probes (16 codes, merged metadata)"""
+    return ["c03.rundef", 1 if ref else 0, [stream, list(other)], enc_res(e)]
+
+
 def run_case(ref, stream, other, e, a):
     """the same comparison, reached through the real runTestCasesForServer with a fake client reporting [a]"""
     return ["c03.run", 1 if ref else 0, [stream, list(other)], enc_res(e), enc_res(a)]
@@ -370,7 +375,7 @@ class C03(Prop):
     coq_files = ("Base", "C03_Consts", "C03_Model", "C03_Spec", "C03_Proofs", "C03_Props")
     models = ("C03_Model",)
     packages = {"cc": "internal/app/connectconformance"}
-    kinds = {"c03.assert": "cc", "c03.run": "cc", "c03.canon": "cc", "c03.merge": "cc"}
+    kinds = {"c03.assert": "cc", "c03.run": "cc", "c03.rundef": "cc", "c03.canon": "cc", "c03.merge": "cc"}
     consts = ("cc",)
     rule = ("c03.assert: (definition, expected, actual) through the real newResults/assert; expected results = 11 hand-made shapes "
             "(one per stream type / error / GET form) x every stream type and other-codes list, plus seeded random results; for each: "
@@ -414,6 +419,8 @@ class C03(Prop):
     def nontrivial(self, case, res):
         if case[0] in ("c03.assert", "c03.run"):
             return res.startswith("(0")
+        if case[0] == "c03.rundef":
+            return "(0 " in res and "(1 " in res
         return True
 
     def describe(self, case, g, m):
@@ -465,6 +472,37 @@ class C03(Prop):
                         e = res([], [], [], {"c": 14, "m": None, "ds": []}, s_e)
                         a = res([], [], [], {"c": 14, "m": "down", "ds": []}, s_a, u)
                         yield run_case(ref, rng.randint(1, 5), [13], e, a)
+        # ---- the DEFINITION that reaches assert is the library's: alternative allowed codes (first, middle, last of the
+        # list, and a code that is not listed), the stream type (merged metadata), the expected response ----
+        for st, e in seeds():
+            if e["e"] is None:
+                continue
+            prim = e["e"]["c"]
+            alts = [c for c in rng.sample(CODES, 5) if c != prim][:3]
+            outsider = next(c for c in CODES if c != prim and c not in alts)
+            for ref in (0, 1):
+                for c in alts + [outsider, prim]:
+                    a = copy.deepcopy(e); a["e"]["c"] = c
+                    yield run_case(ref, st, alts, e, a)
+                a = copy.deepcopy(e); a["e"]["c"] = alts[-1]
+                yield run_case(ref, st, alts[:1], e, a)
+        rd = []
+        for st, e in seeds():
+            prim = e["e"]["c"] if e["e"] is not None else 0
+            alts = [c for c in rng.sample(CODES, 5) if c != prim][:3]
+            rd.append((rng.randint(0, 1), st, alts, e))
+            rd.append((rng.randint(0, 1), st, [], e))
+            if e["e"] is not None:
+                rd.append((rng.randint(0, 1), rng.choice([x for x in (1, 2, 3, 4, 5, 0) if x != st]), alts[:rng.randint(1, 2)], e))
+                if not e["p"]:
+                    for st2 in (1, 2, 3, 4, 5, 0):
+                        if st2 != st:
+                            rd.append((rng.randint(0, 1), st2, rng.choice([[], alts[1:2]]), e))
+        for _ in range(12 if quick else 200):
+            e = rnd_result(rng, 0.95)
+            rd.append((rng.randint(0, 1), rng.randint(0, 5), [rng.choice(CODES) for _ in range(rng.choice([0, 1, 2, 4]))], e))
+        for ref, st, other, e in rd:
+            yield rundef_case(ref, st, other, e)
         for _ in range(150 if quick else 2000):
             e = rnd_result(rng, 0.9)
             st = rng.randint(0, 5)
